@@ -47,7 +47,8 @@ def run(tier, rep, work):
                                  dict(property="C11", tier=tier, seed=C.seed(), part=part, event_index=rj["event_index"], event=ev,
                                       round_head=json.loads(rj["history"][0]), what="concurrent behaviour refused by the interval monitors of ConcT"))
             rep.violation(path, "%s (%s): the monitors refuse event %d: %s" % (part, json.loads(rj["history"][0]).get("kind"), rj["event_index"], rj["event"][:300]))
-    rep.cov["exhaustive"] = True
+    rep.cov["exhaustive"] = False
+    rep.cov["exhaustive_scope"] = "exhaustive on the lock-structured model; real executions are the schedules the runtime picked plus the forced ones"
     rep.cov["rule"] = ("(A) TLC explores all interleavings of 3 goroutines x 3 operations on the lock-structured model of a tombstone index (two programs); (C) rounds of 2-16 free-running goroutines "
                        "(adds with unique ids, Add with generated ids, removal of own documents, Flush, WriteTo, exhaustive searches) against one shared instance of flat, hnsw, ivf, pq, ivfpq, BM25, metadata, hybrid, "
                        "and of the persistent store (memtables of 1-3 documents, flush threshold that keeps the background worker busy, 20 ms compaction ticker, TriggerCompaction, Close at the end), built with -race; "
